@@ -9,7 +9,7 @@ well-typed generated programs must be silent; every single seeded fault must be 
 site and nowhere in untouched files."""
 import json
 
-from .. import core, idecorr, semcheck
+from .. import core, idecorr, semcheck, validcorpus
 
 TRUSTED = ['Lean 4.33 kernel; axioms per theorem under coverage.theorems', 'hand-written model TgModel/Ide/*.lean of crates/ide (indexer, symbol map, scopes, 9 handlers), tied to the code by the `ws` correspondence streams of this run (answers and the symbol-map operation log)', "the generator's expectations follow the TableGen Programmer's Reference; where llvm-tblgen is installed a sample of the generated programs is audited against it and an unreported seeded fault only counts if llvm-tblgen rejects the mutated program"]
 RULE = ("well-typed programs of the generator's core fragment (must produce no diagnostic at all) and single seeded faults of the eleven listed classes (undefined class / multiclass / identifier / include, missing / surplus template argument, type-incompatible initialiser / argument, wrong operator arity, syntax error in the root / in an included file): every fault class present in a program at least once plus random further sites; a program or a seeded fault is one case")
@@ -32,6 +32,7 @@ def run(ck):
     progs, cov, nfaults, nontriv, audited = semcheck.check_all(ck, "C13", 120 if quick else 2000, faults_per_program=(12 if quick else 60),
                                                                tblgen_sample=(25 if quick else 400))
     semcheck.check_witnesses(ck, "C13")
+    validcorpus.check(ck)
     semcheck.scope_leak_probes(ck, "C13")
     semcheck.shadow_probes(ck, "C13")
     semcheck.typed_parent_fault_probe(ck)
